@@ -1650,7 +1650,9 @@ func genC14(g *G, sc *Scenario, tier string, seed uint64) {
 				}
 				trig["onError"] = onErr
 			}
-			cfg := map[string]any{"id": id, "title": id, "source": map[string]any{"Type": "DatasetSource", "Name": hg.Pick(c.Datasets)}, "sink": map[string]any{"Type": "DatasetSink", "Name": "out"},
+			// titles have to be unique among the jobs; re-posting a job under another title frees its old one
+			title := hg.Pick([]string{id, id, "title-a", "title-b"})
+			cfg := map[string]any{"id": id, "title": title, "source": map[string]any{"Type": "DatasetSource", "Name": hg.Pick(c.Datasets)}, "sink": map[string]any{"Type": "DatasetSink", "Name": "out"},
 				"paused": hg.P(0.5), "batchSize": hg.Range(1, 5), "triggers": []any{trig}}
 			ops = append(ops, Op{K: "addJob", M: cfg})
 		case x < 0.58:
@@ -1671,6 +1673,20 @@ func genC14(g *G, sc *Scenario, tier string, seed uint64) {
 			ops = append(ops, Op{K: "addProvider", S: hg.Pick([]string{"prov1", "prov2"})})
 		default:
 			ops = append(ops, Op{K: "deleteProvider", S: hg.Pick([]string{"prov1", "prov2"})})
+		}
+	}
+	if hg.P(0.15) {
+		// a job is posted, posted again under another title, and its first title is then given to another job
+		mk := func(id, title string) Op {
+			return Op{K: "addJob", M: map[string]any{"id": id, "title": title, "source": map[string]any{"Type": "DatasetSource", "Name": "dsA"}, "sink": map[string]any{"Type": "DatasetSink", "Name": "out"},
+				"paused": true, "batchSize": 2, "triggers": []any{map[string]any{"triggerType": "cron", "jobType": "incremental", "schedule": "@every 8760h"}}}}
+		}
+		for _, op := range []Op{mk("jobR", "title-r1"), mk("jobR", "title-r2"), mk("jobS", "title-r1")} {
+			at := len(ops)
+			if hg.P(0.5) {
+				at = hg.Range(len(ops)/2, len(ops))
+			}
+			ops = append(ops[:at:at], append([]Op{op}, ops[at:]...)...)
 		}
 	}
 	pos := g.Intn(len(ops) + 1)
